@@ -87,7 +87,7 @@ def run(ctx):
     for line in open(ops, errors="replace"):
         if line.startswith("spec "):
             _, cid, rest = line.rstrip("\n").split(" ", 2)
-            specs[cid] = rest[:4000]
+            specs[cid] = rest
     rc, out = sh("%s < %s" % (driver, ops), timeout=3000)
     evals = 0
     distinct = set()
@@ -96,6 +96,7 @@ def run(ctx):
     feat = {k: 0 for k in FEATURES + ["fields", "err", "missing", "multiline", "wide(>255 raw children)"]}
     totals = {"asked": 0, "ported": 0, "vis": 0, "raw": 0}
     corr_bad = judge_bad = 0
+    sexp_hyp_bad = 0
     per_clause = {}
     max_fanout = 0
     for line in out.split("\n"):
@@ -111,6 +112,8 @@ def run(ctx):
         kinds[kv.get("kind", "?")] = kinds.get(kv.get("kind", "?"), 0) + 1
         for k in totals:
             totals[k] += int(kv.get(k, "0") or 0)
+        if kv.get("sexpok", "1") != "1":
+            sexp_hyp_bad += 1
         fan = int(kv.get("fanout", "0") or 0)
         max_fanout = max(max_fanout, fan)
         nontrivial = False
@@ -143,11 +146,12 @@ def run(ctx):
             for cl in clauses(corr):
                 per_clause[cl] = per_clause.get(cl, 0) + 1
                 if per_clause[cl] <= 3:
-                    ctx.violation("corr", "port of tree_cursor.c and the real cursor disagree (%s): %s" % (cl, detail(corr, cl)),
+                    ctx.violation("corr", "a port (node.c / tree_cursor.c / S-expression writer) and the real API disagree (%s): %s" % (cl, detail(corr, cl)),
                                   {"case": cid, "spec": spec, "clause": cl, "verdict": corr[:1500],
-                                   "correspondence": "TsVerif.C06.Cursor vs lib/src/tree_cursor.c"},
+                                   "correspondence": "TsVerif.C06.{Cursor,NodePort,NodeNav,Sexp} vs lib/src/{tree_cursor.c,node.c,subtree.c}"},
                                   fingerprint={"lang": lang, "clause": cl, "defect": cl}, found_input=False)
-    ctx.oblige("corr:cursor-port=tree_cursor.c", corr_bad == 0, "%d trees with disagreements" % corr_bad)
+    ctx.oblige("corr:ports=node.c+tree_cursor.c+sexp-writer", corr_bad == 0, "%d trees with disagreements" % corr_bad)
+    ctx.oblige("corr:sexpOK-holds-on-real-trees(hypothesis of sexp_spec)", sexp_hyp_bad == 0, "%d trees" % sexp_hyp_bad)
     ctx.coverage.update({
         "evaluations": evals, "distinct_nontrivial": len(distinct),
         "rule": "zoo languages x (grammar-directed sentences, byte-mutated sentences, multi-line variants, trees re-parsed after 1-3 edits) + corpus "
@@ -160,7 +164,7 @@ def run(ctx):
         "samples": samples, "kinds": kinds, "trees_with_feature": feat, "totals": totals, "max_raw_fanout": max_fanout,
         "explorer_summary": last,
         "correspondence": {"compared": totals["ported"], "equal": totals["ported"] - sum(v for k, v in per_clause.items() if k.startswith("corr:")),
-                           "unit": "cursor answers (API vs port on the dump)"},
+                           "unit": "API answers compared with a code-shaped port run on the dump (all cursor functions, child/named_child, parent, siblings, child_with_descendant, fields, first_child_for_byte, descendant ranges, to_sexp)"},
         "judge": {"evaluated": evals, "passed": evals - judge_bad, "api_answers_judged": totals["asked"]},
         "failing_clauses": per_clause,
         "impl_vs_judge_failures": judge_bad, "model_vs_impl_disagreements": corr_bad,
